@@ -5,5 +5,8 @@ cd "$(dirname "$(readlink -f "$0")")"
 export GOFLAGS=-mod=mod GOPROXY=off GOSUMDB=off GOTOOLCHAIN=local
 mkdir -p .work/bin evidence
 cp -f /repo/go.sum go.sum
-go build -o .work/bin/vcheck ./cmd/vcheck
+for d in cmd/c*/; do
+  id=$(basename "$d")
+  if [ -x "$d/build.sh" ]; then "$d/build.sh"; else go build -o ".work/bin/$id" "./$d"; fi
+done
 echo "setup ok"
